@@ -149,3 +149,24 @@ Lemma gen_registry_writers_ok :
   gen_registry_writers = ["Server.unmap"; "Server.upgrade"] /\
   gen_unmap_callers = [("Server.ServeBackName", "deferred")].
 Proof. vm_compute. split; reflexivity. Qed.
+
+(** ** One key for every access of the registry
+
+    Every index expression on the endpoints map and every key argument of a
+    delete on it is the method's [name] parameter itself: no operation looks
+    a name up under a derived key (folded, trimmed, ...) while another uses
+    the raw one.  (Sni/RegistryKey.v: the key is the name; names that differ
+    are independent.) *)
+Definition gen_registry_key_uniformb : bool :=
+  match gen_registry_keys with
+  | [] => false
+  | l => forallb (fun fk => String.eqb (snd fk) "name") l
+  end.
+
+Lemma gen_registry_key_uniform : gen_registry_key_uniformb = true.
+Proof. vm_compute. reflexivity. Qed.
+
+Lemma gen_registry_key_sites :
+  map fst gen_registry_keys =
+    ["Server.endpoint"; "Server.unmap"; "Server.unmap"; "Server.upgrade"; "Server.upgrade"; "Server.upgrade"].
+Proof. vm_compute. reflexivity. Qed.
